@@ -237,7 +237,9 @@ def block_diagonalize(
         right_subspaces, left_subspaces = _normalize_subspace_eigenvectors(
             subspace_eigenvectors
         )
-        _check_biorthonormality(right_subspaces, left_subspaces, atol=atol)
+        # Overlaps are dimensionless: an `atol` given in small energy units must not
+        # demand more than double precision can deliver.
+        _check_biorthonormality(right_subspaces, left_subspaces, atol=max(atol, 1e-12))
         num_vectors = sum(vecs.shape[1] for vecs in right_subspaces)
         dim = right_subspaces[0].shape[0]
         use_implicit = num_vectors < dim
